@@ -416,6 +416,8 @@ class Gate:
         all_targets = self.get_all_qubits()
         if num_qubits is None:
             num_qubits = max(all_targets) + 1
+        if dims is None:
+            dims = [2] * num_qubits
         return expand_operator(
             self.get_compact_qobj(),
             dims=dims,
